@@ -98,6 +98,11 @@ class DropIn(Monitor):
         # ---- replace()
         self.replace_contracts(value, w)
         # ---- comparison menagerie
+        # (out of the property's domain, as the design notes: a postponed annotation that cannot be evaluated at
+        # run time -- a TYPE_CHECKING-only name -- makes == propagate the NameError of source_value())
+        if not evaluable(value):
+            ctx.count('C14.menagerie_skipped_unevaluable_annotation')
+            return
         self.menagerie(value, twin, w)
 
     def replace_contracts(self, value, w):
@@ -305,6 +310,16 @@ class DropIn(Monitor):
             if e1 and hx and hashable(y):
                 if hash(x) != hash(y):
                     self.V(what + '-hash-inconsistent', 'x == y but hash(x) != hash(y) for y = %s' % label, w)
+
+
+def evaluable(sig):
+    try:
+        for p in sig.parameters.values():
+            p.upgraded_annotation.source_value()
+        sig.upgraded_return_annotation.source_value()
+        return True
+    except Exception:
+        return False
 
 
 class Anything(object):
